@@ -9,9 +9,12 @@ import (
 	"math/rand/v2"
 	"sort"
 	"strings"
+	"unicode"
+	"unicode/utf8"
 
 	"golang.org/x/mod/sumdb/note"
 
+	"verif/harness/gen"
 	"verif/harness/mon"
 	"verif/harness/ref/refnote"
 )
@@ -367,6 +370,70 @@ func (e *c07Env) c07PoisonSign(r *rand.Rand) {
 		return
 	}
 	e.c.Class("rt:failed-sign-call-before-the-checked-one")
+}
+
+// c07OddNames: names the message format cannot carry (spaces, '+', invalid UTF-8, empty) and unusual
+// ones it can, given to a co-signer or to a signature the note already carries. Sign may refuse; when
+// it returns a message, the holder of the good signer's key must be able to open it and get the text
+// back ("signing with any set of signers and opening ... returns the same text").
+var c07OddNameList = []string{"witness\xff", "x\xc3", "\xe2\x80", "a b", "a+b", "", "nbsp\u00a0x", "tab\tname", "nl\nname", "em\u2003sp", "ok-name", "名前", "é", "\ufffd", "a\u200bb"}
+
+func (e *c07Env) c07OddNames(r *rand.Rand, id, text string) {
+	c := e.c
+	perm := r.Perm(len(e.pool))
+	A, B := e.pool[perm[0]], e.pool[perm[1]]
+	good := e.realSigner(A)
+	if good == nil {
+		return
+	}
+	name := gen.Pick(r, c07OddNameList)
+	n := &note.Note{Text: text}
+	signers := []note.Signer{good}
+	how := "co-signer"
+	carried := note.Signature{Name: name, Hash: B.KeyHash(), Base64: refnote.EncodeSig(B.KeyHash(), B.SignText(text))}
+	switch r.IntN(3) {
+	case 0:
+		odd := &c07Signer{name: name, key: B, signed: new([]string)}
+		if r.IntN(2) == 0 {
+			signers = []note.Signer{odd, good}
+		} else {
+			signers = append(signers, odd)
+		}
+	case 1:
+		how = "existing-verified-sig"
+		n.Sigs = []note.Signature{carried}
+	default:
+		how = "existing-unverified-sig"
+		n.UnverifiedSigs = []note.Signature{carried}
+	}
+	ctx := map[string]any{"family": "rt-odd-names", "how": how, "name": mon.QS(name), "text": mon.QS(text), "good": A.Name}
+	var msg []byte
+	var err error
+	if c.Guard(id, func() any { return ctx }, func() { msg, err = note.Sign(n, signers...) }) {
+		return
+	}
+	c.Eval(1)
+	kind := "odd-but-carriable"
+	if name == "" || !utf8.ValidString(name) || strings.ContainsAny(name, "+") || strings.IndexFunc(name, unicode.IsSpace) >= 0 {
+		kind = "uncarriable"
+	}
+	if err != nil {
+		c.Class("oddname:" + how + ":" + kind + ":sign-refused")
+		return
+	}
+	var got *note.Note
+	var oerr error
+	w := e.listWorld([]*refnote.Key{A}, nil)
+	if c.Guard(id, func() any { return ctx }, func() { got, oerr = note.Open(msg, w.known()) }) {
+		return
+	}
+	if oerr != nil || got == nil || got.Text != text {
+		ctx["msg"] = mon.QS(string(msg))
+		ctx["open_err"] = fmt.Sprint(oerr)
+		c.Violation("signed-message-does-not-open-with-the-same-text", id, ctx)
+		return
+	}
+	c.Class("oddname:" + how + ":" + kind + ":signed-and-opens")
 }
 
 func (e *c07Env) realSigner(k *refnote.Key) note.Signer {
@@ -938,6 +1005,9 @@ func c07RunRT(e *c07Env, r *rand.Rand, id string, k int) {
 	var err error
 	if r.IntN(3) == 0 {
 		e.c07PoisonSign(r)
+	}
+	if valid && r.IntN(5) == 0 {
+		e.c07OddNames(r, id, text)
 	}
 	if c.Guard(id, func() any { return ctx }, func() { msg, err = note.Sign(&note.Note{Text: text}, signers...) }) {
 		return
